@@ -46,8 +46,12 @@ CLAIMS = {
          "C16_tokens_faithful_ordered_progress: for every byte string and every flag value the model's scan returns (no panic, no fuel exhaustion), the records tile the input from 0, every step consumes at least one byte, each token lies inside its step, its value is exactly the input slice at its offset (length <= 31), its class is a documented class character, and the scan ends at |input|; proved by induction over the tokenizer loop from a per-lexer specification of all 22 lexers plus parseStringCore, with byte sweeps over the regenerated dispatch table and keyword map. The model is tied to the code by the full-width token-record correspondence (six modes) and the same clauses are evaluated directly on the implementation's records.",
          "model hand-written, tied by correspondence"),
  "C17": (TV, "bounds/order oracle + first-terminator oracle + correspondence", "Bounds, order and count in five contexts; each body placed behind 10 construct openers and compared with an independent first-terminator search, including resumption after the terminator.", "theorem pending"),
- "C18": (TV, "first-real-terminator oracle + correspondence", "Every body behind real / virtual quote, back-tick, @-variable, n' e' u&' prefixes, q-quotes (all 223 delimiters) and dollar tags compared with the find-close oracle.", "theorem pending"),
- "C19": (TV, "decoder reference + encodings of every scheme + correspondence", "Decoder compared with a grammar-directed reference on exhaustive short strings; random encodings of each scheme byte with junk and NUL/LF interleaving must be black, alone and inside URL attributes.", "theorem pending"),
+ "C18": (PROOF, "Coq theorems: every literal form = declarative first-real-terminator oracle; + oracle on the implementation + correspondence",
+         "Spec/StringSpec.v defines the oracle structurally (find_close: first delimiter not preceded by an odd backslash run counted inside the literal and not doubled; first_match: first occurrence of a byte sequence). Properties/C18.v proves, as equations `model call = Ok (oracle value)` for all inputs: parseStringCore's loop and result (token offset, clipped length, value, open/close marks, resume offset, unterminated case) for every delimiter other than backslash; strings.Index = first_match; and the callers: real quote, virtual quote of a quoted context, back-tick, @'..', e'..'/n'..', u&'..', q'X..Y' and nq'X..Y' for every delimiter byte >= 33 including 0x80-0xFF, $$..$$ and $tag$..$tag$. The model is tied to the code by the token-record correspondence and the same oracle evaluated in Go on the implementation's tokens (all 223 q-delimiters, decoy terminators, tail duplication).",
+         "not stated: @@'..' / @`..` (same code path), fall-backs to parseWord when an opener is not recognised; model hand-written, tied by correspondence"),
+ "C19": (PROOF, "Coq theorems: decoder = declarative reference, every encoding decodes, every obfuscated spelling of every scheme is black; + decoder / URL predicate correspondence",
+         "Properties/C19.v proves for all inputs: htmlDecodeByteAt is total, consumes 1..|s| bytes, never exceeds 0x1000FF and equals the declarative reference decode_ref (Spec/DecodeSpec.v); every encoding of a value (literal, &#D with leading zeros and optional ';', &#xH / &#XH likewise) followed by a compatible byte decodes to that value and its own length; a reference whose value exceeds 0x1000FF yields ('&',1); htmlEncodeStartsWith / isBlackURL are total; and for every scheme of the regenerated scheme list and every dangerous full name (javascript:, vbscript:, data:, view-source:), every junk prefix (bytes <= 0x20 or >= 0x7F) and every obfuscated spelling (each character in either case, in any encoding, with encoded or literal NUL / LF interleaved and leading decoded bytes <= 0x20) isBlackURL is true; classify turns that into a positive verdict for a URL-typed attribute value. Tied to the code by decoder / URL-predicate / verdict correspondence on exhaustive short strings and random encodings.",
+         "which attribute names are URL-bearing is data (regenerated list); that the tokenizer hands the value over as one attr-value token is C07/C17; model hand-written, tied by correspondence"),
  "C20": (PROOF, "Coq vm_compute sweeps over the tables regenerated from source (exhaustive)",
          "Every clause (upper-case keys of 1-31 bytes, fingerprint key shape, class alphabet, function names >= 2 bytes, XSS names upper-case and NUL-free, keys distinct, every pinned baseline entry present with the same class) is a boolean sweep over the tables translated from /repo on this run, decided by vm_compute in the Coq kernel and lifted with forallb_forall. Finite and exhaustive. Offending entries are named by an entry-wise evaluation; the translator's view is compared with the tables of the running package.",
          "translator is the tie"),
